@@ -354,7 +354,7 @@ theorem bisectLoop_invariant (hf : ℚ → ℚ) (thr : ℚ) :
       rw [c, pow_succ]; field_simp; ring
 
 /-- hence, for a monotone loss with threshold point `t ∈ (x0, x1]`, the returned boundary length is within `(x1-x0)/2^m` of `t`
-(`m = bisectMaxiter`, i.e. `≤ xtol`) -/
+(with `m = bisectMaxiter num den` for `(x1-x0)/xtol = num/den` this is `≤ xtol`: `bisectMaxiter_spec` below) -/
 theorem bisectLoop_error (hf : ℚ → ℚ) (thr t : ℚ) (ht : ∀ x, thr ≤ hf x ↔ t ≤ x) (m : ℕ) (x0 x1 : ℚ) (h0 : x0 < t) (h1 : t ≤ x1) :
     |(bisectLoop hf thr m x0 x1 x0).2.2 - t| ≤ (x1 - x0) / 2 ^ m := by
   obtain ⟨a, b, c, d⟩ := bisectLoop_invariant hf thr m x0 x1 x0 (by rw [ht]; exact not_le.2 h0) ((ht x1).2 h1) (Or.inl rfl)
@@ -362,6 +362,36 @@ theorem bisectLoop_error (hf : ℚ → ℚ) (thr t : ℚ) (ht : ∀ x, thr ≤ h
   have ha := not_le.1 a
   rw [abs_le]
   rcases d with d | d <;> rw [d] <;> constructor <;> linarith
+
+theorem bisectMaxiter_go_spec (num den : ℕ) :
+    ∀ (fuel m pw : ℕ), pw = 2 ^ m → num ≤ 2 ^ (m + fuel) * den → num ≤ 2 ^ (bisectMaxiter.go num den fuel m pw) * den := by
+  intro fuel
+  induction fuel with
+  | zero => intro m pw _ h; simpa [bisectMaxiter.go] using h
+  | succ f ih =>
+    intro m pw hpw h
+    simp only [bisectMaxiter.go]
+    split_ifs with hc
+    · subst hpw; exact hc
+    · refine ih (m + 1) (pw * 2) (by rw [hpw, pow_succ]) ?_
+      have e : m + 1 + f = m + (f + 1) := by ring
+      rw [e]; exact h
+
+/-- the modelled step count is enough: `(x1-x0)/xtol = num/den ≤ 2^maxiter`, i.e. the final bracket `(x1-x0)/2^maxiter` is `≤ xtol` -/
+theorem bisectMaxiter_spec (num den : ℕ) (hden : 0 < den) : num ≤ 2 ^ (bisectMaxiter num den) * den ∧ 1 ≤ bisectMaxiter num den := by
+  constructor
+  · unfold bisectMaxiter
+    refine bisectMaxiter_go_spec num den (num + 2) 1 2 (by norm_num) ?_
+    have h1 : num < 2 ^ (1 + (num + 2)) := lt_of_lt_of_le (Nat.lt_two_pow_self) (Nat.pow_le_pow_right (by norm_num) (by omega))
+    calc num ≤ 2 ^ (1 + (num + 2)) * 1 := by omega
+      _ ≤ 2 ^ (1 + (num + 2)) * den := Nat.mul_le_mul_left _ hden
+  · unfold bisectMaxiter
+    have : ∀ fuel m pw, 1 ≤ m → 1 ≤ bisectMaxiter.go num den fuel m pw := by
+      intro fuel
+      induction fuel with
+      | zero => intro m pw h; simpa [bisectMaxiter.go] using h
+      | succ f ih => intro m pw h; simp only [bisectMaxiter.go]; split_ifs; exact h; exact ih _ _ (by omega)
+    exact this _ _ _ le_rfl
 
 /-- the Gell-Mann loss of both inner models (`get_density_matrix_distance2`, C16's model `Gellmann.distance2`, executed by op
 `dist2`) vanishes at the target and is symmetric -/
